@@ -39,6 +39,7 @@ int  vx_main(int argc, char **argv, const char *property, vx_body_fn body);
 
 /* convenience for tick ceilings (section 4): count, and above the ceiling classify the
  * execution as non-terminating.  Only the main thread of the execution may call it. */
+void vx_note_cap(void);                         /* a harness-side cap was hit: the run is not exhaustive */
 void vx_tick_reset(void);
 void vx_tick(const char *key);
 extern long vx_tick_ceiling;
